@@ -67,12 +67,16 @@ def load_plugins(config: 'ConfigService', custom=None) -> List['Plugin']:
             if not plugin_instance.is_active():
                 logging.debug("Plugin %s is not active.", plugin_instance.name)
                 continue
-            loaded.append(plugin_instance)
+            # a plugin that cannot tell its order is a plugin we cannot load, it must not stop the others
+            order = plugin_instance.order() or 0
+            if not isinstance(order, (int, float)):
+                raise TypeError("order of plugin %s is not a number: %s" % (plugin_instance.name, order))
+            loaded.append((order, len(loaded), plugin_instance))
         except Exception as e:
             logging.debug("Could not load plugin %s: %s", plugin, e)
 
-    loaded.sort(key=lambda pl: pl.order() or 0)
-    return loaded
+    loaded.sort(key=lambda entry: entry[:2])
+    return [entry[2] for entry in loaded]
 
 
 class Plugin(abc.ABC):
@@ -111,7 +115,8 @@ class Plugin(abc.ABC):
         attr = getattr(self.config, f'plugin_{self.name}'.upper(), 'True')
         if attr is None:
             return True
-        return str2bool(attr)
+        # in code the switch is as likely a bool as the text the environment gives
+        return str2bool(str(attr))
 
     def shutdown(self):
         """Clean up and shutdown the plugin."""
